@@ -73,6 +73,28 @@ func c07WholeLineBatches(c *Ctx) {
 					switch {
 					case f != nil && PkgOf(f) == "io" && f.Name() == "Copy" && call.Common().Args[0] == ssa.Value(mi):
 						src := Unwrap(call.Common().Args[1])
+						// the buffer may be captured by a closure (flush := func(){…}) or handed to a helper (flush(dest, &buf))
+						src = c15Root(src)
+						if fv, isFV := src.(*ssa.FreeVar); isFV {
+							if bnd := freeVarBinding(fv); bnd != nil {
+								src = bnd
+							}
+						}
+						if pr, isP := src.(*ssa.Parameter); isP {
+							var arg ssa.Value
+							nSites := 0
+							for _, g := range p.FuncsIn("pushers/file") {
+								for _, c2 := range Calls(g) {
+									if c2.Common().StaticCallee() == pr.Parent() && paramIdx(pr) < len(c2.Common().Args) {
+										arg = c15Root(Unwrap(c2.Common().Args[paramIdx(pr)]))
+										nSites++
+									}
+								}
+							}
+							if nSites == 1 && arg != nil {
+								src = arg
+							}
+						}
 						if a, isA := src.(*ssa.Alloc); isA && NamedOf(a.Type()) != nil && NamedOf(a.Type()).Obj().Name() == "Buffer" {
 							if ok, why := lineBuffer(a); ok {
 								c.Ok("whole-line-batches", key, p.InstrPos(call), "io.Copy of a buffer filled only by json.Encoder.Encode: every batch is a sequence of complete lines")
